@@ -35,7 +35,7 @@ def cases(tier, seed):
         chunk = 81
         for i in range(0, len(words), chunk):
             out.append({'part': 'words', 'k': k, 'lo': i, 'hi': min(len(words), i + chunk), 'seed': seed * 7 + k})
-    n = 40 if tier == 'quick' else 600
+    n = 100 if tier == 'quick' else 600
     for i in range(n):
         out.append({'part': 'random', 'seed': seed * 100003 + i})
     for j in range(0, 12):
